@@ -425,7 +425,7 @@ def build_program_cases(seed, i, tier):
            "shape": []}
     splits = []
     for s in range(cfg["splits"]):
-        sp = pngen.random_split(prog, rng, allow_parent=True)
+        sp = pngen.random_split(prog, rng, k=(rng.randint(5, 8) if rng.random() < 0.12 else None), allow_parent=True, allow_empty=True)
         pert = pngen.perturb(sp, rng)
         item_order = {}
         for m in range(sp.k):
